@@ -126,6 +126,10 @@ def render(n, macros=False):
             return "(new HC" + "".join(" " + R(a) for a in args) + ")"
         if kind == "ctor":
             return "(HC." + "".join(" " + R(a) for a in args) + ")"
+        if kind == "field":
+            return "(.-fld " + R(args[0]) + ")"
+        if kind == "field2":
+            return "(. " + R(args[0]) + " -fld)"
     raise ValueError(k)
 
 
@@ -390,6 +394,10 @@ class Ref:
             kind = n[1]
             if kind in ("method", "dotform"):
                 return ("vec", tuple(vals[1:]))
+            if kind in ("field", "field2"):
+                if not isinstance(vals[0], HarnessObj):
+                    raise Throw("AttributeError")
+                return 7  # the harness object's attribute fld
             return ("hc", tuple(vals))  # (new HC a b) -> harness class instance, normalised to ("hc", args)
         if k == "prim":
             return self.prim(n[1], vals)
@@ -565,6 +573,8 @@ class Gen:
                 return ("prim", op, [self.expr("int", env, d - 1) for _ in range(n)])
             if not leafy and c < 0.85 and self.locals_of(env, "vec"):
                 return ("prim", "count", [("local", r.choice(self.locals_of(env, "vec")))])
+            if not leafy and self.allow_icall and c < 0.9:
+                return ("icall", r.choice(["field", "field2"]), [self.obj_expr(env, d - 1)])
             return ("const", r.choice([0, 1, 2, 3, -1, 10]))
         if ty == "any":
             c = r.random()
@@ -631,6 +641,24 @@ class Gen:
                 return ("global", r.choice(gs))
             return self.fn_literal(k, env, d - 1)
         raise ValueError(ty)
+
+    def obj_expr(self, env, d):
+        """an expression whose value is the harness object o (a plain reference, or a compound form ending in one)"""
+        r = self.r
+        o = ("local", "o")
+        c = r.random()
+        if d <= 0 or c < 0.2:
+            return o
+        if c < 0.45:
+            return ("t", next(self.mark), self.obj_expr(env, d - 1))  # a call node as target
+        if c < 0.6:
+            return ("do", [self.expr("any", env, d - 1), o])
+        if c < 0.8:
+            return ("if", self.expr("any", env, d - 1), o, o)
+        nm = self.name(env)
+        if nm == "o":
+            return o
+        return ("let", [(nm, self.expr("any", env, d - 1))], [o])
 
     def simple(self, ty, env):
         ls = self.locals_of(env, ty) if ty != "any" else list(env)
